@@ -25,7 +25,9 @@ RULE = ('family = one cache directory, a source of 1-6 examples and a child-writ
         'cases: (a) for the writer plan EVERY kill point "right after a completed '
         'store/access" plus sampled kill points anywhere, including inside '
         'diskcache.Cache.set (a forked child opens the directory with reuse=True, '
-        'performs the access plan, acknowledges each completed access on a pipe and is '
+        'performs the access plan (index of either sign, numpy integer, key, copy, full / '
+        'partial / slice iteration), acknowledges each completed access and every example '
+        'an iteration has handed to it on a pipe and is '
         'killed with os._exit(9) at Python-line step N of lazy_dataset/core.py + '
         'diskcache/core.py: no __del__, no atexit, no sqlite close), then the parent '
         'reopens with reuse=True and reads everything; (b) 3 lifecycle histories of '
